@@ -355,7 +355,14 @@ impl Exec {
             pl = json!({"m": m, "off": o, "len": end - o, "ok": true, "total": enc.len()});
         }
         let fj = perf_json(&p, Dir::FromPeer, &self.sh, |h| *roles.get(&(false, ch, h)).unwrap_or(&false));
-        let bytes = frame_bytes(0, ch, &body);
+        let mut bytes = frame_bytes(0, ch, &body);
+        // header overrides for hostile frames: size field, doff, frame type
+        if let Some(h) = e.get("hdr") {
+            if let Some(sz) = h.get("size").and_then(|x| x.as_i64()) { let v: u32 = if sz < 0 { (bytes.len() as i64 + sz + 1000) as u32 } else { sz as u32 }; bytes[..4].copy_from_slice(&v.to_be_bytes()); }
+            if let Some(sz) = h.get("size_delta").and_then(|x| x.as_i64()) { let v = (bytes.len() as i64 + sz) as u32; bytes[..4].copy_from_slice(&v.to_be_bytes()); }
+            if let Some(d) = h.get("doff").and_then(|x| x.as_u64()) { bytes[4] = d as u8; }
+            if let Some(t) = h.get("ftype").and_then(|x| x.as_u64()) { bytes[5] = t as u8; }
+        }
         let ok = self.peer_write(&bytes).await;
         self.emit(json!({"ev": "PFrame", "perf": name, "ch": ch, "size": bytes.len(), "f": fj, "pl": pl, "written": ok}));
     }
@@ -615,7 +622,12 @@ impl Exec {
             }
             "PFrame" => self.peer_frame(e).await,
             "PEmpty" => { let ch = e.get("ch").and_then(|x| x.as_u64()).unwrap_or(0) as u16; let ok = self.peer_write(&frame_bytes(0, ch, &[])).await; self.emit(json!({"ev": "PFrame", "perf": "empty", "ch": ch, "size": 8, "f": {}, "pl": {"m": -1, "off": 0, "len": 0, "ok": true, "total": 0}, "written": ok})); }
-            "PRaw" => { let b = bytes(&e["b"]); let ok = self.peer_write(&b).await; self.emit(json!({"ev": "PRaw", "n": b.len(), "tag": e.get("tag").cloned().unwrap_or(json!("")), "written": ok})); }
+            "PRaw" => { let b = match e.get("gen") {
+                    // generated hostile bodies: a frame whose body is `depth` nested list8 headers
+                    Some(g) if g["kind"] == "nest" => { let d = g["depth"].as_u64().unwrap_or(8) as usize; let mut body = vec![0x00, 0x53, 0x14, 0xc0, 0xff, 0x01]; for _ in 0..d { body.extend([0xc0, 0xff, 0x01]); } body.push(0x40); frame_bytes(0, g.get("ch").and_then(|x| x.as_u64()).unwrap_or(0) as u16, &body) }
+                    Some(g) if g["kind"] == "big" => { let n = g["n"].as_u64().unwrap_or(8) as usize; frame_bytes(0, 0, &vec![0x40; n]) }
+                    _ => bytes(&e["b"]) };
+                let ok = self.peer_write(&b).await; self.emit(json!({"ev": "PRaw", "n": b.len(), "tag": e.get("tag").cloned().unwrap_or(json!("")), "written": ok})); }
             "PEof" => { if let Some(mut io) = self.peer.take() { let _ = io.shutdown().await; if e.get("keep_read").and_then(|x| x.as_bool()).unwrap_or(true) { self.peer = Some(io); } } self.emit(json!({"ev": "PEof"})); }
             "PReset" => { self.drain().await; self.peer = None; self.emit(json!({"ev": "PReset"})); }
             "Advance" => {
